@@ -1,7 +1,7 @@
 //@ assume: Chain / OrphanBlockPool are abstract; T5: `&self` => `&mut self` on check_orphan so that the orphan pool (interior-mutable) can carry a ghost log of what was added; head() / block_exists() are abstract reads of one state; hashes compare by value
 //@ assume: T6: `block.clone()` => clone_block(block) (a copy), `Instant::now()` => instant_now(), `"duplicate block".into()` => msg(); T3: debug! (with its format! argument) removed
 //@ assume: decided here (C03, 'parents-after-children within the orphan capacity'): Chain::check_orphan lets a block through exactly when its parent is the body head or a stored block; otherwise it puts THAT block with THOSE options into the orphan pool and answers Orphan -- nothing is added on any other path; Chain::is_known refuses a block as a duplicate exactly when it IS the head, or has no more total difficulty than the head and is stored -- a block with more work than the head is never refused as known
-//@ assumed_items: 4
+//@ assumed_items: 8
 //@ fns: Chain::check_orphan, Chain::is_known
 //@ import: use vstd::std_specs::cmp::PartialEqSpecImpl;
 #[derive(Clone, Copy)]
@@ -58,6 +58,15 @@ impl Chain {
     pub fn head(&self) -> (r: Result<Tip, Error>) ensures r matches Ok(t) ==> t == sp_head(), r matches Err(e) ==> !(e is Orphan) && !(e is Unfit) { unimplemented!() }
     #[verifier::external_body]
     pub fn block_exists(&self, h: Hash) -> (r: Result<bool, Error>) ensures r matches Ok(b) ==> b == sp_exists(h), r matches Err(e) ==> !(e is Orphan) && !(e is Unfit) { unimplemented!() }
+    /// offered (not used by the pinned text): reads of the HEADER chain -- what they answer says nothing about which full blocks are stored
+    #[verifier::external_body]
+    pub fn get_previous_header(&self, h: &BlockHeader) -> (r: Result<BlockHeader, Error>) ensures r matches Err(e) ==> !(e is Orphan) && !(e is Unfit) { unimplemented!() }
+    #[verifier::external_body]
+    pub fn is_on_current_chain(&self, h: &BlockHeader, head: Tip) -> (r: Result<(), Error>) { unimplemented!() }
+    #[verifier::external_body]
+    pub fn get_block_header(&self, h: &Hash) -> (r: Result<BlockHeader, Error>) ensures r matches Err(e) ==> !(e is Orphan) && !(e is Unfit) { unimplemented!() }
+    #[verifier::external_body]
+    pub fn header_head(&self) -> (r: Result<Tip, Error>) ensures r matches Err(e) ==> !(e is Orphan) && !(e is Unfit) { unimplemented!() }
 //@ extract chain/src/chain.rs :: impl Chain::is_known
 //@   rewrite `"duplicate block".into()` => `msg()` x?
 //@   ensures:
